@@ -54,7 +54,8 @@ CONFIG['C17'] = {
     'trusted_base': COMMON_TB + [
         "Fir.Soft (exact binary32 rounding over Nat) is tied to hardware Float32 and to the implementation by correspondence on the "
         "complete u8/u16 domains and the f32 samples",
-        "IEEE-754 round-to-nearest is monotone (premise `Monotone fl` of float_to_int_monotone / int_to_float_monotone)",
+        "`Monotone fl` (premise of float_to_int_monotone / int_to_float_monotone) is proved for round-to-nearest-even as IEEE-754 defines it "
+        "(Fir.Ieee.flP_monotone; instance float_to_int_monotone_ieee); trusted: the hardware implements that function",
     ],
     'assumptions': [
         "float conversions for arbitrary f32 inputs: monotonicity is proved for the shape clamp -> scale -> round -> saturating cast "
@@ -238,6 +239,10 @@ RESIZE_TB = COMMON_TB + [
     "compared byte for byte (integers) / bit for bit (floats, portable back-end)",
     "Lean Float / Float32 = hardware IEEE binary64 / binary32 and glibc sin/cos/exp as used by Rust (observed on every run by the bit-exact "
     "coefficient comparison, not proved)",
+    "float clauses: theorems quantify over every rounding function with the stated premises (relative error u / monotone / exact on named "
+    "integers / idempotent); Fir.Proofs.IeeeLemmas proves all four for round-to-nearest-even to p bits as IEEE-754 defines it (unbounded "
+    "exponent) and the *_ieee corollaries instantiate them for binary64 / binary32 - trusted: the hardware implements that function, no "
+    "overflow / underflow",
 ]
 RESIZE_ASSUME = [
     "float tests in the control flow are opaque to the kernel: structural theorems hold for every value they can take (float-oblivious); "
